@@ -1,0 +1,308 @@
+//go:build verif
+
+package badger
+
+// This file is only compiled with the "verif" build tag. It gives the external
+// runtime-verification harness (which lives outside this repository) access to a
+// few internals: a deterministic flush/compaction driver built on the production
+// pickers, and thin wrappers around the log-file and MANIFEST code so that they
+// can be monitored as components. Nothing here changes production behaviour.
+
+import (
+	"bytes"
+	"os"
+	"time"
+
+	"github.com/dgraph-io/badger/v4/pb"
+	"github.com/dgraph-io/badger/v4/y"
+	"github.com/dgraph-io/ristretto/v2/z"
+)
+
+// VerifPrio mirrors compactionPriority.
+type VerifPrio struct {
+	Level    int
+	Score    float64
+	Adjusted float64
+}
+
+// VerifRotateMemtable pushes the active memtable to the flush queue exactly as
+// ensureRoomForWrite does. It must only be called while no write is in flight.
+// Returns false if the memtable is empty or the flush queue is full.
+func (db *DB) VerifRotateMemtable() (bool, error) {
+	db.lock.Lock()
+	defer db.lock.Unlock()
+	if db.mt == nil || db.mt.sl.Empty() {
+		return false, nil
+	}
+	select {
+	case db.flushChan <- db.mt:
+		db.imm = append(db.imm, db.mt)
+		var err error
+		db.mt, err = db.newMemTable()
+		if err != nil {
+			return false, y.Wrapf(err, "cannot create new mem table")
+		}
+		return true, nil
+	default:
+		return false, nil
+	}
+}
+
+// VerifNumImmutable returns the number of immutable memtables waiting for flush.
+func (db *DB) VerifNumImmutable() int {
+	db.lock.RLock()
+	defer db.lock.RUnlock()
+	return len(db.imm)
+}
+
+// VerifWaitFlushed waits until every immutable memtable was flushed.
+func (db *DB) VerifWaitFlushed(max time.Duration) bool {
+	deadline := time.Now().Add(max)
+	for db.VerifNumImmutable() > 0 {
+		if time.Now().After(deadline) {
+			return false
+		}
+		time.Sleep(time.Millisecond)
+	}
+	return true
+}
+
+// VerifPriorities returns what the production picker would choose right now.
+func (db *DB) VerifPriorities() []VerifPrio {
+	var out []VerifPrio
+	for _, p := range db.lc.pickCompactLevels(nil) {
+		out = append(out, VerifPrio{Level: p.level, Score: p.score, Adjusted: p.adjusted})
+	}
+	return out
+}
+
+// VerifBaseLevel returns the current base level.
+func (db *DB) VerifBaseLevel() int { return db.lc.levelTargets().baseLevel }
+
+// VerifCompact runs the production doCompact for compactor id with the given priority.
+// It returns (false, nil) when the picker found nothing to do.
+func (db *DB) VerifCompact(id int, p VerifPrio) (bool, error) {
+	cp := compactionPriority{level: p.Level, score: p.Score, adjusted: p.Adjusted,
+		t: db.lc.levelTargets()}
+	err := db.lc.doCompact(id, cp)
+	if err == errFillTables {
+		return false, nil
+	}
+	return err == nil, err
+}
+
+// VerifBackdateTables makes every table look d older (picker gates on table age).
+func (db *DB) VerifBackdateTables(d time.Duration) {
+	for _, l := range db.lc.levels {
+		l.Lock()
+		for _, t := range l.tables {
+			t.CreatedAt = t.CreatedAt.Add(-d)
+		}
+		l.Unlock()
+	}
+}
+
+// VerifDiscardTs returns the timestamp at or below which compaction may discard.
+func (db *DB) VerifDiscardTs() uint64 { return db.orc.discardAtOrBelow() }
+
+// VerifNextTxnTs returns the oracle's next commit timestamp.
+func (db *DB) VerifNextTxnTs() uint64 { return db.orc.nextTs() }
+
+// VerifLevelOrder returns table ids of a level in the handler's own order.
+func (db *DB) VerifLevelOrder(level int) []uint64 {
+	l := db.lc.levels[level]
+	l.RLock()
+	defer l.RUnlock()
+	var out []uint64
+	for _, t := range l.tables {
+		out = append(out, t.ID())
+	}
+	return out
+}
+
+// VerifSetGCPauseHook installs f between the scan and write-back phases of a vlog rewrite.
+func (db *DB) VerifSetGCPauseHook(f func()) { db.vlogGCPauseHook = f }
+
+// VerifSubscriberCount returns the number of registered subscribers.
+func (db *DB) VerifSubscriberCount() int {
+	db.pub.Lock()
+	defer db.pub.Unlock()
+	return len(db.pub.subscribers)
+}
+
+// VerifValueThreshold returns the current (possibly dynamic) value threshold.
+func (db *DB) VerifValueThreshold() int64 { return db.valueThreshold() }
+
+// VerifVlogFids returns the ids of the value log files currently known.
+func (db *DB) VerifVlogFids() []uint32 {
+	db.vlog.filesLock.RLock()
+	defer db.vlog.filesLock.RUnlock()
+	return db.vlog.sortedFids()
+}
+
+// VerifDiscardStats returns fid -> discard bytes.
+func (db *DB) VerifDiscardStats() map[uint32]uint64 {
+	out := map[uint32]uint64{}
+	if db.vlog.discardStats == nil {
+		return out
+	}
+	db.vlog.discardStats.Lock()
+	db.vlog.discardStats.Iterate(func(id, val uint64) { out[uint32(id)] = val })
+	db.vlog.discardStats.Unlock()
+	return out
+}
+
+// ---------------------------------------------------------------------------------------------
+// Log file component access.
+
+// Meta bits re-exported for the harness.
+const (
+	VerifBitDelete                 = bitDelete
+	VerifBitValuePointer           = bitValuePointer
+	VerifBitDiscardEarlierVersions = bitDiscardEarlierVersions
+	VerifBitMergeEntry             = bitMergeEntry
+	VerifBitTxn                    = bitTxn
+	VerifBitFinTxn                 = bitFinTxn
+	VerifVlogHeaderSize            = vlogHeaderSize
+	VerifMaxHeaderSize             = maxHeaderSize
+)
+
+// VerifEntry is a log record as the harness sees it.
+type VerifEntry struct {
+	Key, Value []byte
+	Meta       byte
+	UserMeta   byte
+	ExpiresAt  uint64
+}
+
+// VerifVP mirrors valuePointer.
+type VerifVP struct{ Fid, Len, Offset uint32 }
+
+// VerifLogFile wraps a logFile.
+type VerifLogFile struct {
+	lf  *logFile
+	buf *bytes.Buffer
+}
+
+// VerifOpenLogFile creates (create=true) or opens a log file of the given mmap size.
+func VerifOpenLogFile(path string, fid uint32, size int64, reg *KeyRegistry, opt Options,
+	create bool) (*VerifLogFile, error) {
+	lf := &logFile{fid: fid, path: path, registry: reg, writeAt: vlogHeaderSize, opt: opt}
+	flags := os.O_RDWR
+	if create {
+		flags |= os.O_CREATE | os.O_EXCL
+	}
+	err := lf.open(path, flags, size)
+	if err != nil && err != z.NewFile {
+		return nil, err
+	}
+	return &VerifLogFile{lf: lf, buf: &bytes.Buffer{}}, nil
+}
+
+// Write appends e and returns where it was put.
+func (v *VerifLogFile) Write(e VerifEntry) (VerifVP, error) {
+	off := v.lf.writeAt
+	ent := &Entry{Key: e.Key, Value: e.Value, meta: e.Meta, UserMeta: e.UserMeta,
+		ExpiresAt: e.ExpiresAt}
+	if err := v.lf.writeEntry(v.buf, ent, v.lf.opt); err != nil {
+		return VerifVP{}, err
+	}
+	v.lf.size.Store(v.lf.writeAt)
+	return VerifVP{Fid: v.lf.fid, Offset: off, Len: v.lf.writeAt - off}, nil
+}
+
+// WriteAt returns the current write offset.
+func (v *VerifLogFile) WriteAt() uint32 { return v.lf.writeAt }
+
+// Iterate replays the file from offset.
+func (v *VerifLogFile) Iterate(offset uint32, fn func(VerifEntry, VerifVP) error) (uint32, error) {
+	return v.lf.iterate(true, offset, func(e Entry, vp valuePointer) error {
+		return fn(VerifEntry{Key: append([]byte{}, e.Key...), Value: append([]byte{}, e.Value...),
+			Meta: e.meta, UserMeta: e.UserMeta, ExpiresAt: e.ExpiresAt},
+			VerifVP{Fid: vp.Fid, Len: vp.Len, Offset: vp.Offset})
+	})
+}
+
+// ReadAt decodes the record a value pointer names.
+func (v *VerifLogFile) ReadAt(vp VerifVP) (VerifEntry, error) {
+	buf, err := v.lf.read(valuePointer{Fid: vp.Fid, Len: vp.Len, Offset: vp.Offset})
+	if err != nil {
+		return VerifEntry{}, err
+	}
+	e, err := v.lf.decodeEntry(buf, vp.Offset)
+	if err != nil {
+		return VerifEntry{}, err
+	}
+	return VerifEntry{Key: append([]byte{}, e.Key...), Value: append([]byte{}, e.Value...),
+		Meta: e.meta, UserMeta: e.UserMeta, ExpiresAt: e.ExpiresAt}, nil
+}
+
+// Data exposes the mapping (for corruption experiments).
+func (v *VerifLogFile) Data() []byte { return v.lf.Data }
+
+// Encrypted reports whether the file has a data key.
+func (v *VerifLogFile) Encrypted() bool { return v.lf.encryptionEnabled() }
+
+// Close unmaps and closes without truncation.
+func (v *VerifLogFile) Close() error { return v.lf.Close(-1) }
+
+// VerifHeaderRoundTrip encodes and decodes an entry header both ways.
+func VerifHeaderRoundTrip(klen, vlen uint32, expiresAt uint64, meta, userMeta byte) (
+	encLen int, d1 [5]uint64, n1 int, d2 [5]uint64, n2 int, err error) {
+	h := header{klen: klen, vlen: vlen, expiresAt: expiresAt, meta: meta, userMeta: userMeta}
+	var buf [maxHeaderSize + 4]byte
+	encLen = h.Encode(buf[:])
+	var a header
+	n1 = a.Decode(buf[:])
+	d1 = [5]uint64{uint64(a.klen), uint64(a.vlen), a.expiresAt, uint64(a.meta), uint64(a.userMeta)}
+	var b header
+	hr := newHashReader(bytes.NewReader(buf[:encLen]))
+	n2, err = b.DecodeFrom(hr)
+	d2 = [5]uint64{uint64(b.klen), uint64(b.vlen), b.expiresAt, uint64(b.meta), uint64(b.userMeta)}
+	return
+}
+
+// VerifVptrRoundTrip encodes and decodes a value pointer.
+func VerifVptrRoundTrip(p VerifVP) VerifVP {
+	vp := valuePointer{Fid: p.Fid, Len: p.Len, Offset: p.Offset}
+	var q valuePointer
+	q.Decode(vp.Encode())
+	return VerifVP{Fid: q.Fid, Len: q.Len, Offset: q.Offset}
+}
+
+// ---------------------------------------------------------------------------------------------
+// MANIFEST component access.
+
+// VerifManifestFile wraps a manifestFile.
+type VerifManifestFile struct {
+	mf  *manifestFile
+	opt Options
+}
+
+// VerifOpenManifest opens or creates dir/MANIFEST with a custom rewrite threshold.
+func VerifOpenManifest(dir string, threshold int, opt Options) (*VerifManifestFile, Manifest, error) {
+	mf, m, err := helpOpenOrCreateManifestFile(dir, false, opt.ExternalMagicVersion, threshold, opt)
+	if err != nil {
+		return nil, Manifest{}, err
+	}
+	return &VerifManifestFile{mf: mf, opt: opt}, m, nil
+}
+
+// AddChanges appends one change set.
+func (v *VerifManifestFile) AddChanges(ch []*pb.ManifestChange) error {
+	return v.mf.addChanges(ch, v.opt)
+}
+
+// Snapshot returns a copy of the in-memory table map and the counters.
+func (v *VerifManifestFile) Snapshot() (map[uint64]TableManifest, int, int) {
+	v.mf.appendLock.Lock()
+	defer v.mf.appendLock.Unlock()
+	out := make(map[uint64]TableManifest, len(v.mf.manifest.Tables))
+	for k, t := range v.mf.manifest.Tables {
+		out[k] = t
+	}
+	return out, v.mf.manifest.Creations, v.mf.manifest.Deletions
+}
+
+// Close closes the file.
+func (v *VerifManifestFile) Close() error { return v.mf.close() }
